@@ -19,6 +19,8 @@ def gen(tier, rng, shard, nshards):
                 "tol": float(S.pick(rng, [1e-12, 1e-12, 1e-8, 1e-6])), "via": S.pick(rng, ["gmres", "gmres", "inv"]),
                 "ms": S.pick(rng, ["sweep", "sweep", "beyond"]), "wide_rhs": bool(rng.random() < 0.2),
                 "colscale": S.pick(rng, [None, None, None, "tiny", "mixed"]), "opscale": float(S.pick(rng, [1.0, 1.0, 1.0, 1e-9, 1e9]))}
+        if 2 <= n <= 8 and rng.random() < 0.12:
+            case["cols"] = n  # a square right-hand-side block: as many columns as the operator has rows
         if rng.random() < 0.15:
             # right-hand-side columns living in two invariant subspaces on which the operator acts at very different scales
             # (every column sees one scale only, but the columns of one call see different ones)
@@ -135,7 +137,7 @@ def build(case):
     if cs == "tiny":
         b = b * 1e-13  # a right-hand side of tiny norm: the solve is linear in b, every oracle is relative to ||r0|| per column
     elif cs == "mixed":
-        b = b * np.array([1e-12, 1.0, 1e8][:b.shape[1]])[None, :]
+        b = b * np.resize(np.array([1e-12, 1.0, 1e8]), b.shape[1])[None, :]
     if case["cols"] == 0:
         b = b[:, 0]
     if case["x0"] == "none":
